@@ -2617,8 +2617,11 @@ class Parameters:
         ]
 
         self_._BATCH_WATCH = True
-        for tp in trigger_params:
-            self_[tp]._mode = 'set'
+        # A class-level assignment may replace an inherited Parameter by a
+        # per-class copy: remember the objects whose mode is switched here
+        switched = [self_[tp] for tp in trigger_params]
+        for p in switched:
+            p._mode = 'set'
 
         try:
             values = self_.values()
@@ -2643,6 +2646,8 @@ class Parameters:
                         setattr(self_or_cls, tp, p._autotrigger_reset_value)
                     finally:
                         p._mode = 'set-reset'
+                for p in switched:
+                    p._mode = 'set-reset'
         return restore
 
     # PARAM3_DEPRECATION
